@@ -57,7 +57,8 @@ Definition will_look (evd : bool) (p : pc) : bool :=
   | PRecvPark CI _ => false
   | PRecvNone CI WPoll => negb evd
   | PRecvNone CI _ => false
-  | PIEntry | PIStartupCS | PIAfterStartup | PILoop | PIEvLoop | PIEvWait => negb evd
+  | PIEntry | PIStartupCS | PIAfterStartup | PILoop => negb evd
+  | PIEvLoop | PIEvWait => false
   | _ => true
   end.
 
@@ -186,6 +187,63 @@ Proof.
   destruct T as [R | [P | Q]]; [left; auto | right; left; apply pendU_upd_mono; auto | right; right; exact Q].
 Qed.
 
+Lemma readable_same_counts : forall g g' c,
+  g_sockets g' = g_sockets g -> g_alloc g' = g_alloc g -> g_iopen g' = g_iopen g ->
+  c_sig (ch g' c) = c_sig (ch g c) -> c_wc (ch g' c) = c_wc (ch g c) -> readable g' c = readable g c.
+Proof. intros g g' c H1 H2 H3 H4 H5. unfold readable. rewrite H1, H2, H3, H4, H5. reflexivity. Qed.
+
+Lemma readable_set_enq : forall g x m c, readable (set_ch x (enq (ch g x) m) g) c = readable g c.
+Proof. intros g x m c. apply readable_same_counts; destruct x, c; reflexivity. Qed.
+
+Lemma readable_set_deq : forall g x m r c, readable (set_ch x (deq (ch g x) m r) g) c = readable g c.
+Proof. intros g x m r c. apply readable_same_counts; destruct x, c; reflexivity. Qed.
+
+Lemma A_o_transfer : forall s g' t l',
+  A_o s ->
+  (parked_o (mkS g' (upd (s_l s) t l')) = true -> parked_o s = true) ->
+  c_q (g_co g') = c_q (g_co (s_g s)) ->
+  g_ist g' = g_ist (s_g s) -> g_il g' = g_il (s_g s) ->
+  (readable (s_g s) CO = true -> readable g' CO = true) ->
+  is_pend_o (l_pc (s_l s t)) = false ->
+  A_o (mkS g' (upd (s_l s) t l')).
+Proof.
+  intros s g' t l' A Hp Hq H1 H2 H3 H4. unfold A_o in *. intros P Q. simpl in Q. rewrite Hq in Q.
+  apply tok_o_transfer; auto.
+Qed.
+
+Lemma A_o_unparked : forall s', parked_o s' = false -> A_o s'.
+Proof. intros s' H P. congruence. Qed.
+
+Lemma parked_o_other : forall s g' t l', t <> 0 ->
+  g_sockets g' = g_sockets (s_g s) -> g_alloc g' = g_alloc (s_g s) ->
+  parked_o (mkS g' (upd (s_l s) t l')) = parked_o s.
+Proof.
+  intros s g' t l' Ht H1 H2. unfold parked_o. simpl. unfold upd. destruct (Nat.eqb_spec 0 t); [congruence|].
+  rewrite H1, H2. reflexivity.
+Qed.
+
+Lemma A_o_transfer_int : forall s g' l',
+  A_o s ->
+  g_sockets g' = g_sockets (s_g s) -> g_alloc g' = g_alloc (s_g s) ->
+  c_q (g_co g') = c_q (g_co (s_g s)) ->
+  (readable (s_g s) CO = true -> readable g' CO = true) ->
+  is_pend_o (l_pc (g_il (s_g s))) = false ->
+  A_o (mkS (set_il l' g') (s_l s)).
+Proof.
+  intros s g' l' A H1 H2 Hq H3 H4. unfold A_o, parked_o, tok_o in *. simpl. rewrite H1, H2, Hq.
+  intros P Q. destruct (A P Q) as [R | [U | [_ I]]].
+  - left. unfold readable in *. simpl in *. auto.
+  - right. left. exact U.
+  - congruence.
+Qed.
+
+Lemma parked_alloc : forall s, P_o s -> parked_o s = true -> g_sockets (s_g s) = true -> g_alloc (s_g s) = true.
+Proof.
+  intros s Po. unfold parked_o. intros Hp Hs. destruct (l_pc (s_l s 0)) eqn:Ep; try discriminate; destruct c; try discriminate.
+  - destruct w; try discriminate; rewrite Hs in Hp; simpl in Hp; exact Hp.
+  - eapply Po; eauto.
+Qed.
+
 Section Wake.
 Variable absorb_n : nat.
 Variable react : nat -> list msg * bool.
@@ -273,6 +331,393 @@ Proof.
     + apply A_i_dead. simpl. pose proof (alloc_frame (s_g s)) as F. simpl in F. destruct F as (_ & _ & _ & F4 & _). congruence.
     + rewrite (alloc_noop _ Wg Hl). apply A_i_transfer; auto. rewrite El. reflexivity.
     + apply A_i_dead. simpl. pose proof (alloc_frame (s_g s)) as F. simpl in F. destruct F as (_ & _ & _ & F4 & _). congruence.
+Qed.
+
+(* where the internal thread goes after a reply / a received Message: somewhere it will look at its queue again *)
+Lemma next_reply_looks : forall evd rs q k p k' e', next_reply evd rs q k = (p, k', e') -> will_look evd p = true.
+Proof.
+  intros evd rs q k p k' e' H. unfold next_reply in H. destruct rs; inv H; [|reflexivity].
+  destruct q; [reflexivity|]. destruct evd; reflexivity.
+Qed.
+
+Lemma A_i_int_step : forall s p k c g' l' e',
+  wf (g_sockets (s_g s)) (g_evd (s_g s)) s -> wake s ->
+  g_ist (s_g s) = ILive -> g_il (s_g s) = mkL p k ->
+  Step c (s_g s) (mkL p k) g' l' e' ->
+  A_i (mkS (set_il l' g') (s_l s)).
+Proof.
+  intros s p k c g' l' e' W Wk Hl El Hst.
+  pose proof (wf_wfg _ _ _ W) as Wg.
+  assert (Hi : ipc_ok (mkL p k)) by (rewrite <- El; apply (wf_ipc _ _ _ W); exact Hl).
+  destruct Wk as [Ai Ao Po Hstrict].
+  pose proof (Step_const _ _ _ _ _ _ _ _ Hst) as [Hc1 Hc2].
+  assert (Look : forall q, will_look (g_evd (s_g s)) q = true -> l_pc l' = q -> A_i (mkS (set_il l' g') (s_l s))).
+  { intros q Hq Hp. apply A_i_looks. simpl. rewrite Hc2, Hp. exact Hq. }
+  assert (Keep : g_ist g' = g_ist (s_g s) -> c_q (g_ci g') = c_q (g_ci (s_g s)) ->
+                 (readable (s_g s) CI = true -> readable g' CI = true) ->
+                 will_look (g_evd (s_g s)) p = false -> A_i (mkS (set_il l' g') (s_l s))).
+  { intros K1 K2 K3 K4. apply A_i_transfer_int; auto. rewrite El. exact K4. }
+  inversion Hst; subst; clear Hst; unfold ipc_ok in Hi; simpl in Hi; try contradiction;
+    try (eapply Look; [|reflexivity]; simpl; reflexivity).
+  - (* 1: a reply was signalled: continue with the next one, or poll again, or leave *)
+    destruct x; try contradiction. destr_k k.
+    match goal with Hr : ret _ _ _ _ = _ |- _ => simpl in Hr; eapply Look; [|reflexivity]; rewrite <- Hc2; eapply next_reply_looks; exact Hr end.
+  - (* 2 *)
+    destruct x; try contradiction. destr_k k.
+    match goal with Hr : ret _ _ _ _ = _ |- _ => simpl in Hr; eapply Look; [|reflexivity]; eapply next_reply_looks; exact Hr end.
+  - (* 3: the queue was empty *)
+    destruct x; [|destr_k k]. unfold A_i. simpl. intros _ _ Hq. contradiction.
+  - (* 4: a Message was received *)
+    destruct x; [|destr_k k]. destr_k k.
+    match goal with Hr : ret _ _ _ _ = _ |- _ => simpl in Hr; unfold dispatch in Hr; rename Hr into HR end.
+    eapply Look; [|reflexivity].
+    destruct m as [y|].
+    + destruct (next_reply (g_evd (s_g s)) (fst (react y)) (snd (react y)) []) as [[p1 k1] e1] eqn:En. inv HR.
+      eapply next_reply_looks; eauto.
+    + inv HR. reflexivity.
+  - (* 5: the poll found nothing *)
+    destruct x; [|destr_k k]. destr_k k.
+    match goal with Hr : ret _ _ _ _ = _ |- _ => simpl in Hr; inv Hr end.
+    destruct (g_evd (s_g s)) eqn:Ee.
+    + apply Keep; auto.
+    + eapply Look; [|reflexivity]. reflexivity.
+  - (* 6 *)
+    destruct x; [|destr_k k]. apply Keep; auto. simpl. destruct w; try reflexivity. congruence.
+  - (* 7 *)
+    destruct x; [|destr_k k]. destr_k k.
+    match goal with Hr : ret _ _ _ _ = _ |- _ => simpl in Hr; inv Hr end. eapply Look; [|reflexivity]. reflexivity.
+  - (* 8: a timed wait of the internal thread timed out *)
+    destruct x; [|destr_k k]. destr_k k.
+    match goal with Hr : ret _ _ _ _ = _ |- _ => simpl in Hr; inv Hr end.
+    destruct (g_evd (s_g s)) eqn:Ee.
+    + apply Keep; auto.
+    + eapply Look; [|reflexivity]. reflexivity.
+  - (* 9 *)
+    destruct (g_evd (s_g s)) eqn:Ee; [apply Keep; auto | eapply Look; [|reflexivity]; reflexivity].
+  - (* 10 *)
+    destruct (g_evd (s_g s)) eqn:Ee; [apply Keep; auto | eapply Look; [|reflexivity]; reflexivity].
+  - (* 11 *)
+    match goal with Hs : signal _ _ = _ |- _ => sig_frame Hs end.
+    destruct (g_evd (s_g s)) eqn:Ee; [|eapply Look; [|reflexivity]; reflexivity].
+    apply Keep; auto.
+    + destruct (F9 CI) as (Q & _). exact Q.
+    + intros R. rewrite (readable_CI_same (s_g s) g'); auto. apply F10. discriminate.
+  - (* 12 *)
+    destruct (g_evd (s_g s)) eqn:Ee; [apply Keep; auto | eapply Look; [|reflexivity]; reflexivity].
+  - (* 13 *)
+    apply Keep; auto. simpl. match goal with He : g_evd _ = true |- _ => rewrite He end. reflexivity.
+  - (* 14 *)
+    apply Keep; auto.
+Qed.
+
+Lemma A_o_user_step : forall s t p k c g' l' e',
+  wf (g_sockets (s_g s)) (g_evd (s_g s)) s -> wake s ->
+  s_l s t = mkL p k ->
+  Step c (s_g s) (mkL p k) g' l' e' ->
+  A_o (mkS g' (upd (s_l s) t l')).
+Proof.
+  intros s t p k c g' l' e' W Wk El Hst.
+  pose proof (wf_wfg _ _ _ W) as Wg.
+  assert (Hu : upc_ok t (mkL p k)) by (rewrite <- El; apply (wf_upc _ _ _ W)).
+  destruct Wk as [Ai Ao Po Hstrict].
+  destruct (Nat.eq_dec t 0) as [Ht | Ht].
+  - (* the owner's own step *)
+    subst t.
+    assert (Unp : forall q, l_pc l' = q -> (match q with PRecvPark CO _ | PRecvNone CO _ => false | _ => true end) = true ->
+                  A_o (mkS g' (upd (s_l s) 0 l'))).
+    { intros q Hq Hm. apply A_o_unparked. unfold parked_o. simpl. rewrite upd_same, Hq.
+      destruct q; try reflexivity; destruct c0; try reflexivity; discriminate. }
+    inversion Hst; subst; clear Hst; unfold upc_ok in Hu; simpl in Hu; try contradiction;
+      try (eapply Unp; [reflexivity | reflexivity]);
+      try (destr_k k; kill_ret; eapply Unp; [reflexivity | reflexivity]);
+      try (repeat match goal with y : chanid |- _ => destruct y | y : msg |- _ => destruct y end; try contradiction;
+           destr_k k; kill_ret; eapply Unp; [reflexivity | reflexivity]).
+    all: try (destruct x; simpl in Hu; destr_k k; simpl in Hu; try contradiction; kill_ret; eapply Unp; reflexivity).
+    + (* the reply queue was empty *)
+      destruct x; simpl in Hu; [destruct k; contradiction|]. unfold A_o. simpl. intros _ Hq. contradiction.
+    + (* the owner is about to block *)
+      destruct x; simpl in Hu; [destruct k; contradiction|].
+      assert (Pk : parked_o s = true).
+      { unfold parked_o. rewrite El. simpl. destruct w; try congruence.
+        - destruct (g_sockets (s_g s)) eqn:Es; simpl; auto.
+          match goal with Hf : _ -> fd_ok _ CO = true |- _ => specialize (Hf eq_refl); unfold fd_ok in Hf; rewrite Es in Hf; simpl in Hf;
+            rewrite andb_true_r in Hf; exact Hf end.
+        - destruct (g_sockets (s_g s)) eqn:Es; simpl; auto.
+          match goal with Hf : _ -> fd_ok _ CO = true |- _ => specialize (Hf eq_refl); unfold fd_ok in Hf; rewrite Es in Hf; simpl in Hf;
+            rewrite andb_true_r in Hf; exact Hf end. }
+      apply A_o_transfer; auto. rewrite El. reflexivity.
+    + destruct k as [|[] [|? ?]]; simpl in Hu; try contradiction; kill_ret; eapply Unp; reflexivity.
+    + destruct k as [|[] [|? ?]]; simpl in Hu; try contradiction; kill_ret; eapply Unp; reflexivity.
+  - (* another thread's step: it can only be sending *)
+    assert (Palloc : parked_o s = true -> g_sockets (s_g s) = true -> g_alloc (s_g s) = true).
+    { unfold parked_o. intros Hp Hs. destruct (l_pc (s_l s 0)) eqn:Ep; try discriminate; destruct c0; try discriminate.
+      - destruct w; try discriminate; rewrite Hs in Hp; simpl in Hp; exact Hp.
+      - eapply Po; eauto. }
+    inversion Hst; subst; clear Hst; unfold upc_ok in Hu; simpl in Hu; try contradiction;
+      try (exfalso; repeat match goal with y : chanid |- _ => destruct y | y : msg |- _ => destruct y end;
+           destruct k as [|[] [|? ?]]; simpl in Hu; try contradiction; congruence).
+    + (* enqueue *)
+      destruct x.
+      * apply A_o_transfer; auto;
+          try (rewrite parked_o_other by auto; auto; fail);
+          try (intros R; rewrite readable_set_enq; exact R);
+          try (rewrite El; reflexivity).
+      * unfold A_o. rewrite parked_o_other by auto. simpl. intros Pk Hq.
+        destruct (c_q (g_co (s_g s))) as [|m0 q0] eqn:Eq.
+        -- right. left. apply pendU_upd_new. reflexivity.
+        -- assert (T : tok_o s) by (apply Ao; auto; rewrite Eq; discriminate).
+           apply tok_o_transfer; auto;
+             try (intros R; rewrite readable_set_enq; exact R);
+             try (rewrite El; reflexivity).
+    + (* the signal *)
+      match goal with Hs : signal _ _ = _ |- _ => pose proof Hs as Hsig; sig_frame Hs end.
+      destruct x.
+      * apply A_o_transfer; auto;
+          try (rewrite parked_o_other by auto; auto; fail);
+          try (destruct (F9 CO) as (Q & _); exact Q);
+          try (intros R; rewrite (readable_CO_same (s_g s) g'); auto; apply F10; discriminate);
+          try (rewrite El; reflexivity).
+      * unfold A_o. rewrite parked_o_other by auto. intros Pk _. left. simpl.
+        eapply signal_CO_readable; eauto.
+    + apply A_o_transfer; auto;
+        try (rewrite parked_o_other by auto; auto; fail);
+        try (rewrite El; destruct x; reflexivity).
+Qed.
+
+Lemma A_o_int_step : forall s p k c g' l' e',
+  wf (g_sockets (s_g s)) (g_evd (s_g s)) s -> wake s ->
+  g_ist (s_g s) = ILive -> g_il (s_g s) = mkL p k ->
+  Step c (s_g s) (mkL p k) g' l' e' ->
+  A_o (mkS (set_il l' g') (s_l s)).
+Proof.
+  intros s p k c g' l' e' W Wk Hl El Hst.
+  pose proof (wf_wfg _ _ _ W) as Wg.
+  assert (Hi : ipc_ok (mkL p k)) by (rewrite <- El; apply (wf_ipc _ _ _ W); exact Hl).
+  destruct Wk as [Ai Ao Po Hstrict].
+  assert (Same : g' = s_g s -> is_pend_o p = false -> A_o (mkS (set_il l' g') (s_l s))).
+  { intros -> Hp. apply A_o_transfer_int; auto. rewrite El. exact Hp. }
+  inversion Hst; subst; clear Hst; unfold ipc_ok in Hi; simpl in Hi; try contradiction;
+    try (apply Same; reflexivity).
+  - (* 1: a reply is appended *)
+    destruct x; [destruct m; contradiction|].
+    unfold A_o, parked_o. simpl. intros Pk Hq.
+    destruct (c_q (g_co (s_g s))) as [|m0 q0] eqn:Eq.
+    + right. right. split; [exact Hl | reflexivity].
+    + assert (T : tok_o s) by (apply Ao; auto; rewrite Eq; discriminate).
+      destruct T as [R | [U | [_ I]]].
+      * left. rewrite <- R. unfold readable. reflexivity.
+      * right. left. exact U.
+      * rewrite El in I. discriminate.
+  - (* 2: the reply's signal *)
+    destruct x; try contradiction.
+    unfold A_o. intros Pk _. left. simpl.
+    match goal with Hs : signal _ _ = _ |- _ => pose proof Hs as Hsig; sig_frame Hs end.
+    assert (Pk0 : parked_o s = true).
+    { unfold parked_o in *. simpl in Pk. rewrite F1, F3 in Pk. exact Pk. }
+    assert (R : readable g' CO = true) by (eapply signal_CO_readable; eauto; intros; eapply parked_alloc; eauto).
+    rewrite <- R. unfold readable. reflexivity.
+  - (* 3 *) apply Same; [reflexivity | destruct x; reflexivity].
+  - (* 4: absorb *)
+    destruct x; [|destruct k as [|[] [|? ?]]; contradiction].
+    pose proof (absorb_frame absorb_n CI (s_g s)) as F. simpl in F.
+    destruct F as (F1 & F2 & F3 & F4 & F5 & F6 & F7 & F8 & F9 & F10).
+    apply A_o_transfer_int; auto;
+      try (destruct (F9 CO) as (Q & _); exact Q);
+      try (intros R; rewrite (readable_CO_same (s_g s) _); auto; apply F10; discriminate);
+      try (rewrite El; reflexivity).
+  - (* 5: dequeue *)
+    destruct x; [|destruct k as [|[] [|? ?]]; contradiction].
+    apply A_o_transfer_int; auto;
+      try (intros R; rewrite readable_set_deq; exact R);
+      try (rewrite El; reflexivity).
+  - (* 6: Wait() returned *)
+    destruct x; [|destruct k as [|[] [|? ?]]; contradiction].
+    apply A_o_transfer_int; auto; try (rewrite El; reflexivity).
+  - (* 7: the start-up signal *)
+    match goal with Hs : signal _ _ = _ |- _ => pose proof Hs as Hsig; sig_frame Hs end.
+    apply A_o_transfer_int; auto;
+      try (destruct (F9 CO) as (Q & _); exact Q);
+      try (intros R; eapply signal_readable_mono; eauto);
+      try (rewrite El; reflexivity).
+  - (* 8: the thread leaves: end-of-file on the owner's socket *)
+    unfold A_o. intros Pk Hq.
+    assert (Pk0 : parked_o s = true) by (unfold parked_o, exited in *; simpl in *; exact Pk).
+    destruct (g_sockets (s_g s)) eqn:Es.
+    + left. simpl. unfold readable, exited. simpl. rewrite Es. simpl.
+      rewrite (parked_alloc s Po Pk0 Es). apply orb_true_r.
+    + assert (T : tok_o s).
+      { apply Ao; auto. }
+      destruct T as [R | [U | [_ I]]].
+      * left. rewrite <- R. unfold readable, exited. simpl. rewrite Es. reflexivity.
+      * right. left. exact U.
+      * rewrite El in I. discriminate.
+Qed.
+
+(* which steps touch _messageSocketsAllocated *)
+Lemma Step_alloc : forall c g l g' l' ev, Step c g l g' l' ev ->
+  (g_alloc g' = g_alloc g /\ g_sockets g' = g_sockets g) \/ (exists n, l_pc l = PStartSpawn n) \/ l_pc l = PJoinWait \/ l_pc l = PGetSock.
+Proof.
+  intros c g l g' l' ev HS. inversion HS; subst; clear HS; simpl; eauto;
+    try (left;
+         try match goal with Hs : signal _ _ = _ |- _ => apply signal_frame in Hs end;
+         try match goal with x : chanid |- _ => destruct x end; simpl; tauto).
+  - left. pose proof (absorb_frame absorb_n x g). simpl in *. tauto.
+Qed.
+
+(* what the queue of the internal thread looks like after a user thread's step that is not an append to it *)
+Lemma Step_qi_user : forall t c g l g' l' ev, upc_ok t l -> Step c g l g' l' ev ->
+  c_q (g_ci g') = c_q (g_ci g) \/ (exists m, l_pc l = PSendCS CI m).
+Proof.
+  intros t c g l g' l' ev Hu HS. inversion HS; subst; clear HS; unfold upc_ok in Hu; simpl in Hu; try contradiction; auto;
+    try (left; reflexivity);
+    try (left; match goal with Hs : signal _ _ = _ |- _ => apply signal_frame in Hs; destruct Hs as (_&_&_&_&_&_&_&_&Hs&_); destruct (Hs CI) as (Q&_); exact Q end);
+    try (destruct x; simpl in Hu; try (destruct k; contradiction); first [left; reflexivity | right; eexists; reflexivity]);
+    try (left; pose proof (absorb_frame absorb_n x g) as F; simpl in F; destruct F as (_&_&_&_&_&_&_&_&F&_); destruct (F CI) as (Q&_); exact Q);
+    try (left; pose proof (alloc_frame g) as F; simpl in F; destruct F as (_&_&_&_&_&_&F); destruct (F CI) as (Q&_); exact Q);
+    try (left; pose proof (close_frame g) as F; simpl in F; destruct F as (_&_&_&_&_&_&F); destruct (F CI) as (Q&_); exact Q).
+Qed.
+
+(* the program counter a user thread's step leads to *)
+Lemma Step_pc_user : forall t c g l g' l' ev, upc_ok t l -> Step c g l g' l' ev ->
+  (forall w, l_pc l' = PRecvPark CO w -> l_pc l = PRecvNone CO w /\ g' = g /\ (g_sockets g = true -> g_alloc g = true)) /\
+  (in_ci_send (l_pc l') = true -> in_ci_send (l_pc l) = true \/ t = 0) /\
+  (forall n, l_pc l' = PStartSpawn n -> l_pc l = PStartRead /\ g' = g /\ n = negb (is_nil (c_q (g_ci g)))).
+Proof.
+  intros t c g l g' l' ev Hu HS.
+  inversion HS; subst; clear HS; unfold upc_ok in Hu; simpl in Hu; try contradiction;
+    repeat match goal with y : chanid |- _ => destruct y | y : msg |- _ => destruct y end; simpl in Hu; try contradiction;
+    try (destruct k as [|[] [|? ?]]; simpl in Hu; try contradiction; kill_ret);
+    simpl; repeat split; intros; try discriminate; auto;
+    try match goal with Hq : PRecvPark _ _ = PRecvPark _ _ |- _ => inv Hq end; auto.
+  all: try (match goal with Hf : _ -> fd_ok _ CO = true |- _ => specialize (Hf H); unfold fd_ok in Hf;
+              apply andb_true_iff in Hf; destruct Hf as [Hf _]; apply andb_true_iff in Hf; tauto end).
+  all: try (match goal with Hq : PStartSpawn _ = PStartSpawn _ |- _ => inv Hq; reflexivity end).
+  match goal with Hf : _ -> fd_ok _ CO = true, Hs : g_sockets _ = true |- _ => specialize (Hf Hs); unfold fd_ok in Hf;
+    rewrite Hs in Hf; simpl in Hf; rewrite andb_true_r in Hf; exact Hf end.
+Qed.
+
+(* ---------- assembling the invariant ---------- *)
+
+Variable ok : label -> bool.
+Variables smode emode : bool.
+
+(* the event-driven InternalThreadEntry needs the contract; the default one needs nothing *)
+Hypothesis Hmode : emode = true -> forall lab, ok lab = true -> owner_sends_ci lab = true.
+
+Notation sys_step := (sys_step absorb_n react).
+Notation reachable_if := (reachable_if absorb_n react).
+
+Lemma wake_init : wake (sys0 smode emode).
+Proof.
+  constructor.
+  - intros H. discriminate.
+  - intros H. discriminate.
+  - intros w H. discriminate.
+  - intros _. split; [intros t _; reflexivity | intros n H; discriminate].
+Qed.
+
+Lemma wf_self : forall s, wf smode emode s -> wf (g_sockets (s_g s)) (g_evd (s_g s)) s.
+Proof. intros s W. rewrite (wf_sockets _ _ _ W), (wf_evd _ _ _ W). exact W. Qed.
+
+Lemma pc_of_op_facts : forall o,
+  is_pend_i (pc_of_op o) = false /\ is_pend_o (pc_of_op o) = false /\
+  (forall w, pc_of_op o <> PRecvPark CO w) /\ (forall n, pc_of_op o <> PStartSpawn n) /\
+  (in_ci_send (pc_of_op o) = true -> exists m, o = OSend CI m) /\
+  (match pc_of_op o with PRecvPark CO _ | PRecvNone CO _ => false | _ => true end) = true.
+Proof.
+  intros o. destruct o as [[] ?| | | | | ]; simpl; repeat split; intros; try discriminate; eauto.
+Qed.
+
+Lemma wake_step : forall s lab s' ev, wf smode emode s -> wake s -> ok lab = true ->
+  sys_step s lab = Some (s', ev) -> wake s'.
+Proof.
+  intros s lab s' ev W0 Wk Hok H.
+  pose proof (wf_self s W0) as W. pose proof (wf_wfg _ _ _ W0) as Wg.
+  destruct lab as [t o | [t|] c]; simpl in H.
+  - (* a thread starts an API call *)
+    destruct (begin_op t o (s_l s t)) eqn:Hb; [|discriminate]. inv H.
+    unfold begin_op in Hb. destruct (l_pc (s_l s t)) eqn:Hp; try discriminate.
+    destruct (l_k (s_l s t)) eqn:Hk; try discriminate.
+    destruct (allowed t o) eqn:Ha; [|discriminate]. inv Hb.
+    destruct (pc_of_op_facts o) as (O1 & O2 & O3 & O4 & O5 & O6).
+    destruct Wk as [Ai Ao Po Hstrict].
+    constructor.
+    + apply A_i_transfer; auto. rewrite Hp. reflexivity.
+    + destruct (Nat.eq_dec t 0) as [-> | Ht].
+      * apply A_o_unparked. unfold parked_o. simpl.
+        destruct (pc_of_op o); try reflexivity; destruct c; try reflexivity; discriminate.
+      * apply A_o_transfer; auto; try (rewrite Hp; reflexivity).
+        rewrite parked_o_other by auto. auto.
+    + intros w. simpl. unfold upd. destruct (Nat.eqb_spec 0 t).
+      * simpl. intros Hq. exfalso. eapply O3; eauto.
+      * apply Po.
+    + simpl. intros Hev. destruct (Hstrict Hev) as [N B]. split.
+      * intros u Hu. simpl. unfold upd. destruct (Nat.eqb_spec u t); [subst u | apply N; exact Hu].
+        simpl. destruct (in_ci_send (pc_of_op o)) eqn:Ec; [|reflexivity].
+        destruct (O5 eq_refl) as [m ->].
+        rewrite (wf_evd _ _ _ W0) in Hev. specialize (Hmode Hev _ Hok). simpl in Hmode. apply Nat.eqb_eq in Hmode. congruence.
+      * intros n. simpl. unfold upd. destruct (Nat.eqb_spec 0 t).
+        -- simpl. intros Hq. exfalso. eapply O4; eauto.
+        -- apply B.
+  - (* a user thread's step *)
+    destruct (step absorb_n react c (s_g s) (s_l s t)) as [[[g' l'] e']|] eqn:Hst; [|discriminate]. inv H.
+    apply step_spec in Hst.
+    destruct (s_l s t) as [p k] eqn:El.
+    assert (Hu : upc_ok t (mkL p k)) by (rewrite <- El; apply (wf_upc _ _ _ W)).
+    pose proof (Step_pc_user _ _ _ _ _ _ _ Hu Hst) as (PC1 & PC2 & PC3).
+    constructor.
+    + eapply A_i_user_step; eauto.
+    + eapply A_o_user_step; eauto.
+    + (* P_o *)
+      intros w. simpl. unfold upd. destruct (Nat.eqb_spec 0 t) as [<- | Ht].
+      * intros Hq. destruct (PC1 w Hq) as (_ & -> & Hal). exact Hal.
+      * intros Hq Hs. destruct (Step_alloc _ _ _ _ _ _ Hst) as [[A1 A2] | [[n Hn] | [Hj | Hg]]]; simpl in *.
+        -- rewrite A1. rewrite A2 in Hs. eapply (wk_po _ Wk); eauto.
+        -- subst p. unfold upc_ok in Hu. simpl in Hu. destruct k; [congruence | contradiction].
+        -- subst p. unfold upc_ok in Hu. simpl in Hu. destruct k as [|[] [|]]; try contradiction; congruence.
+        -- subst p. unfold upc_ok in Hu. simpl in Hu. destruct k; [congruence | contradiction].
+    + (* the contract's footprint *)
+      simpl. intros Hev.
+      assert (Hev0 : g_evd (s_g s) = true).
+      { destruct (Step_const _ _ _ _ _ _ _ _ Hst) as [_ Hc]. congruence. }
+      destruct (wk_strict _ Wk Hev0) as [N B]. split.
+      * intros u Hu0. simpl. unfold upd. destruct (Nat.eqb_spec u t); [subst u | apply N; exact Hu0].
+        destruct (in_ci_send (l_pc l')) eqn:Ec; [|reflexivity].
+        destruct (PC2 eq_refl) as [Hc | Hc]; [|congruence].
+        simpl in Hc. specialize (N t Hu0). rewrite El in N. simpl in N. congruence.
+      * intros n. simpl. unfold upd. destruct (Nat.eqb_spec 0 t) as [<- | Ht].
+        -- intros Hq. destruct (PC3 n Hq) as (_ & -> & Hn). exact Hn.
+        -- intros Hq. destruct (Step_qi_user _ _ _ _ _ _ _ Hu Hst) as [Q | [m Hm]].
+           ++ rewrite Q. apply B. exact Hq.
+           ++ simpl in Hm. subst p. assert (Ht' : t <> 0) by congruence.
+              specialize (N t Ht'). rewrite El in N. simpl in N. discriminate.
+  - (* the internal thread's step *)
+    destruct (g_ist (s_g s)) eqn:Hl; try discriminate.
+    destruct (step absorb_n react c (s_g s) (g_il (s_g s))) as [[[g' l'] e']|] eqn:Hst; [|discriminate]. inv H.
+    apply step_spec in Hst.
+    destruct (g_il (s_g s)) as [p k] eqn:El.
+    assert (Hi : ipc_ok (mkL p k)) by (rewrite <- El; apply (wf_ipc _ _ _ W); exact Hl).
+    constructor.
+    + eapply A_i_int_step; eauto.
+    + eapply A_o_int_step; eauto.
+    + intros w. simpl. intros Hq Hs.
+      destruct (Step_alloc _ _ _ _ _ _ Hst) as [[A1 A2] | [[n Hn] | [Hj | Hg]]]; simpl in *;
+        try (subst p; unfold ipc_ok in Hi; simpl in Hi; contradiction).
+      rewrite A1. rewrite A2 in Hs. eapply (wk_po _ Wk); eauto.
+    + simpl. intros Hev.
+      assert (Hev0 : g_evd (s_g s) = true).
+      { destruct (Step_const _ _ _ _ _ _ _ _ Hst) as [_ Hc]. congruence. }
+      destruct (wk_strict _ Wk Hev0) as [N B]. split; [exact N|].
+      intros n Hq. exfalso.
+      pose proof (wf_start_idle _ _ _ W n Hq) as Hr. pose proof (wf_running _ _ _ W) as Hr2.
+      rewrite Hl, Hr in Hr2. discriminate.
+Qed.
+
+Theorem reachable_wake : forall s, reachable_if ok smode emode s -> wake s.
+Proof.
+  intros s H. induction H.
+  - apply wake_init.
+  - eapply wake_step; eauto. eapply reachable_wf; eauto.
 Qed.
 
 End Wake.
